@@ -64,7 +64,7 @@ func (r *RequireModule) resolve(modpath string) (module *js.Object, err error) {
 }
 
 func (r *RequireModule) loadNative(path string) (*js.Object, error) {
-	module := r.modules[path]
+	module := r.natives[path]
 	if module != nil {
 		return module, nil
 	}
@@ -89,13 +89,16 @@ func (r *RequireModule) loadNative(path string) (*js.Object, error) {
 
 	if ldr != nil {
 		module = r.createModuleObject()
-		r.modules[path] = module
+		r.natives[path] = module
 		if isBuiltIn {
 			if withPrefix {
-				r.modules[path[len(NodePrefix):]] = module
+				// the unprefixed name is the same module only if no native module overrides it
+				if name := path[len(NodePrefix):]; r.r.native[name] == nil && native[name] == nil {
+					r.natives[name] = module
+				}
 			} else {
 				if !strings.HasPrefix(path, NodePrefix) {
-					r.modules[NodePrefix+path] = module
+					r.natives[NodePrefix+path] = module
 				}
 			}
 		}
